@@ -1135,7 +1135,7 @@ ResOp ==
         /\ Top(A).k = "borrow"
         /\ StartGiveBack([act EXCEPT ![A].ops = 0, ![A].cur = [op |-> "leave", blk |-> "res", id |-> Top(A).p]], Top(A), NoSig)
         /\ ev' = E(B([op |-> "leave", implicit |-> TRUE, blk |-> "res", id |-> Top(A).p]))
-        /\ UNCHANGED <<cnt, run>>
+        /\ UNCHANGED <<cnt>>
      \/ /\ act[A].ops > 0 /\ In("borrow")
         /\ \E p \in 1..cnt.pool : \E amt \in 0..2 : \E claim \in BOOLEAN :
              /\ (claim => In("claim"))
@@ -1162,7 +1162,7 @@ ResOp ==
      \/ /\ act[A].ops > 0 /\ In("leave") /\ Top(A).k = "borrow" /\ Top(A).ph = "body"
         /\ StartGiveBack([ac EXCEPT ![A].cur = [op |-> "leave", blk |-> "res", id |-> Top(A).p]], Top(A), NoSig)
         /\ ev' = E(B([op |-> "leave", implicit |-> FALSE, blk |-> "res", id |-> Top(A).p]))
-        /\ UNCHANGED <<cnt, run>>
+        /\ UNCHANGED <<cnt>>
      \/ /\ act[A].ops > 0 /\ In("rchange")
         /\ \E p \in 1..NRes : \E kind \in {"inc", "dec", "rset"} : \E amt \in 0..2 :
              /\ (kind = "dec" => amt <= obj.pool[p].level)
